@@ -147,13 +147,13 @@ func Sets() []*Set {
 	delPath := A.Delete("del-path", path.Ref, T(2))
 	add(&Set{Name: "camlipath", Blobs: []hs.Blob{A.Pub, pn, pn2, path, delPath},
 		Attrs: []string{"camliPath:foo"}, Vals: []string{refStr(pn2)}, Suffixes: []string{"foo"}, MaxRank: 2,
-		Quick: true, FileKV: "thorough", DupsQuick: "ends", DupsThorough: "all"})
+		Quick: true, FileKV: "thorough", DupsQuick: "", DupsThorough: "all"})
 
 	// 6. camliMember claim + member (+ delete of the parent)
 	member := A.AddAttr("add-member", pn.Ref, "camliMember", pn2.Ref.String(), T(1))
 	add(&Set{Name: "camlimember", Blobs: []hs.Blob{A.Pub, pn, pn2, member, delPn},
 		Attrs: []string{"camliMember"}, Vals: []string{refStr(pn2)}, MaxRank: 2,
-		Quick: true, DupsQuick: "ends", DupsThorough: "all"})
+		Quick: true, DupsQuick: "", DupsThorough: "all"})
 
 	// 7. file with a two-level bytes tree
 	c1 := hs.Mk("chunk1", []byte("first chunk of the file, "), "")
@@ -162,7 +162,7 @@ func Sets() []*Set {
 	bytesB := bytesBlob("bytes", c1, c2)
 	file := fileOver("file", "tree.txt", time.Unix(1300000000, 0).UTC(), bytesB, len(c1.Data)+len(c2.Data), c3)
 	add(&Set{Name: "file-tree", Blobs: []hs.Blob{c1, c2, c3, bytesB, file},
-		MaxRank: 1, Quick: true, FileKV: "quick", DupsQuick: "ends", DupsThorough: "all"})
+		MaxRank: 1, Quick: true, FileKV: "quick", DupsQuick: "", DupsThorough: "all"})
 
 	// 8. permanode whose camliContent is a file (PermanodeTime / creation order depend on file rows)
 	small := hs.Mk("content-chunk", []byte("content of a small file\n"), "")
@@ -191,7 +191,7 @@ func Sets() []*Set {
 	aDelB := A.Delete("A-del-pn-of-B", pnB.Ref, T(3))
 	add(&Set{Name: "pubkey-never-arrives", Blobs: []hs.Blob{A.Pub, pnB, bTitle, aTag, aDelB},
 		Attrs: []string{"title", "tag"}, Vals: []string{"a", "b"}, MaxRank: 3,
-		Quick: true, DupsQuick: "ends", DupsThorough: "all"})
+		Quick: true, DupsQuick: "", DupsThorough: "all"})
 
 	// 11. an opaque blob, and a delete claim aimed at it (not a deletable target)
 	opaque := hs.Mk("opaque", []byte("just some bytes, not JSON"), "")
